@@ -18,8 +18,8 @@ TRound   == IsEvent("round")   /\ DRound(E.X, E.vec, E.disk, E.zero, E.payloadOk
 TRoundF  == IsEvent("roundfault") /\ DRoundFault(E.firedErr, E.anyErr)
 TSetBase == IsEvent("setbase") /\ DSetBase(E.file)
 TSameBase == IsEvent("samebase") /\ DSameBase(E.file)
-TFinish  == IsEvent("finish")  /\ DFinish(E.valRet, E.eqB, E.sized, E.must)
-TTool    == IsEvent("toolrun") /\ DToolRun(E.status, E.eqB, E.X, E.wholeChunks, E.disk, E.usable, E.sized, E.full, E.must)
+TFinish  == IsEvent("finish")  /\ DFinish(E.valRet, E.eqB, E.sized, E.must, E.bValid)
+TTool    == IsEvent("toolrun") /\ DToolRun(E.status, E.eqB, E.X, E.wholeChunks, E.disk, E.usable, E.sized, E.full, E.must, E.bValid)
 TCrash   == IsEvent("killed")  /\ DCrash
 
 Init == DInit /\ l = 1
